@@ -77,6 +77,7 @@ func (c *conn) sendHandle(msg pmpx.Message) status.Status {
 		// Remove and free channel
 		id := msg.ChannelClose().Id()
 
+		vtr("sl.del", id, 0, 0)
 		ch, ok := c.channels.Delete(id)
 		if ok {
 			ch.free()
